@@ -105,4 +105,18 @@ PROPS = {
                  "findings C11-F1 (3.0-only `default` response), C11-F2 (non-string enum members rendered as strings in 3.0), C11-F3 (two bounds of one side), C11-F4 (3.1 refuses a required self-reference), C07-F1 (3.0 usage sites rewrite shared components)"],
         assumptions=[],
     ),
+    "C08": dict(
+        streams=[dict(mode="ir", quick=1200, thorough=30000, workers=14, driver_workers=8)],
+        rule=IR_RULE + "; every emitted document (3.0 and 3.1) is read back into the abstract Doc and the decidable well-formedness checker (proved sound) runs on it: $ref closure, path-template/parameter bijection with required path parameters, parameter names unique per location, responses described, enum members typed, info/servers/securitySchemes = configuration; non-trivial = at least one document emitted; distinct = distinct document",
+        trusted_base=COMMON_TB + IR_TB + ["docOfJson (driver): reading the real JSON into Gleece.Doc.Doc", "kin-openapi openapi3.T.Validate and libopenapi-validator are trusted to reject what they reject"],
+        partial=["finding C08-F1 (= C11-F2): 3.0 lists the members of a non-string enum component as JSON strings"],
+        assumptions=[],
+    ),
+    "C14": dict(
+        streams=[dict(mode="ir", quick=1500, thorough=40000, workers=14, driver_workers=8, env={"VH_BAD_VALIDATORS": "1"})],
+        rule=IR_RULE + " with arbitrary / malformed validator tags on a third of the rules (unparsable, negative, empty and overflowing numbers, empty oneof/enum, unknown rules, stray separators, unicode) and struct fields referring to structs declared later (unresolved $ref while emitting); a recovered panic, a dead worker or a timeout is a failure; non-trivial = every case (each exercises both emitters); distinct = distinct document",
+        trusted_base=COMMON_TB + IR_TB + ["translator harness/cmd/vh/extract_rules.go (go/ast over both converters)"],
+        partial=["crash-freedom of go/packages, raymond, kin-openapi, libopenapi and the AST visitors on arbitrary Go source cannot be proved here; it is explored (ir stream with bad tags; CLI stream)"],
+        assumptions=[],
+    ),
 }
